@@ -26,14 +26,14 @@ var known = ev.Matcher[Case]{
 }
 
 const rule = "real CLI, SQLite: commands {migrate diff, migrate validate --dev-url, migrate lint, schema apply --to file://schema.sql --dev-url, schema diff file:// -> file://} " +
-	"x dev database {empty file, file with tables+rows+index, file holding only a view, file with a table and a trigger, file holding a table named sqlitex, file holding a table named libsql_notes, in-memory} x migration directories / SQL schemas of 1-3 files x 1-3 statements (tables with AUTOINCREMENT, indexes, views incl. view-only prefixes and end states, triggers) " +
+	"x dev database {empty file, file with tables+rows+index, file holding only a view, file with a table and a trigger, file holding a table named sqlitex, file holding a table named libsql_notes, file holding only a virtual (fts4) table, in-memory} x migration directories / SQL schemas of 1-3 files x 1-3 statements (tables with AUTOINCREMENT, indexes, views incl. view-only prefixes and end states, triggers) " +
 	"with a failing statement at every position or none; directory commands also with one file being a checkpoint (replay starts there) and, for lint, every window --latest N. Oracle (independent connection, full dump incl. sqlite_master and sqlite_ bookkeeping tables, rows, rowids; directory listing + SHA-256 of every file): " +
 	"non-empty dev => non-zero exit that says the database is not clean, dev dump unchanged; empty dev => dump after == dump before (no object left) whether the command succeeded or failed; " +
 	"directory files unchanged, except that migrate diff may add one file and rewrite atlas.sum. " +
 	"non-trivial = the replay executed >=1 statement on the dev database before the end/failure, or the dev database was non-empty; distinct key = (command, dev kind, shape, failure position)"
 
 var cmds = []string{"migrate-diff", "migrate-validate", "migrate-lint", "schema-apply", "schema-diff"}
-var devs = []string{"empty", "tables", "view", "trigger", "lookalike", "libsql-lookalike", "memory"}
+var devs = []string{"empty", "tables", "view", "trigger", "lookalike", "libsql-lookalike", "virtual", "memory"}
 
 func TestCheck(t *testing.T) {
 	col := ev.New("C14", "exploration", rule)
